@@ -62,12 +62,19 @@ type textSpec struct {
 func genText(r *rand.Rand, sep string) textSpec {
 	var sb strings.Builder
 	n := r.Intn(7)
+	large := false
 	if r.Intn(12) == 0 {
 		n = 0
 	}
 	if r.Intn(40) == 0 {
 		// 4..12 KiB: crosses the 4096-byte buffers of csv.Reader, csv.Writer and bufio more than once
 		n = 120 + r.Intn(200)
+		// one large text in 2 has a record count at or just beyond a round number (a codec that moves records in
+		// batches of 32, 64, 128, 256 or 512 shows at those counts and nowhere else)
+		if r.Intn(2) == 0 {
+			n = batchCounts[r.Intn(len(batchCounts))] + r.Intn(3) - 1
+		}
+		large = true
 	}
 	width := 1 + r.Intn(4)
 	// one text in 50: a single field (hence a single record, and for most units a single line) above 4096 bytes
@@ -80,6 +87,14 @@ func genText(r *rand.Rand, sep string) textSpec {
 	brokenAt := -1
 	if broken && n > 0 {
 		brokenAt = r.Intn(n)
+	}
+	// a large text is malformed one time in 2, and then mostly in one of its last records: "the parser's error
+	// instead of partial success" must hold however many well-formed records come first
+	if large && r.Intn(2) == 0 {
+		brokenAt = n - 1 - r.Intn(3)
+		if r.Intn(4) == 0 {
+			brokenAt = r.Intn(n)
+		}
 	}
 	eol := "\n"
 	if r.Intn(4) == 0 {
@@ -138,6 +153,9 @@ func genText(r *rand.Rand, sep string) textSpec {
 	}
 	return textSpec{text: text, nrecs: n, broken: brokenAt >= 0}
 }
+
+// batchCounts are record counts at which a batching codec would change behaviour.
+var batchCounts = []int{32, 64, 128, 256, 257, 300, 512, 513}
 
 var fixedTexts = []string{
 	"name,country,age\nJohn,US,19\nMike,US,20\n",
